@@ -10,7 +10,7 @@ MANIFEST_ENTRY = {
   "text": "Theorems in coq/Properties/C14.v about an executable model of data/src/data/parsing.rs, for all inputs by induction: every radix literal 0R_digits (R in 2..36, any valid digits, any placement of `_` separators) parses to the value of the digits in radix R when it fits an i32 and is rejected otherwise (R<>10); every non-negative i32 has a spelling in every radix, and a decimal spelling with separators, that parses back to it; a decimal fraction digits.digits is converted by the IEEE-754 round-to-nearest-even of its decimal value (via Flocq, for every mantissa and exponent; partial: the text-level theorem covers digits.digits without separators/exponent), and every finite positive binary64 has a decimal-fraction spelling that parses back to exactly it; every char-list literal made of raw characters, backslash escapes and \\u{hex} escapes parses to exactly the characters those items denote, for every quote count and every (multi-byte) character, and every string has such a spelling; the same for byte lists in text form and for byte vectors in numeric form; the CharList/ByteList headers written by both data implementations make every stored character readable at its index and a symbol keeps its name. The model (including its own str::parse::<f64>) is tied to the Rust code on every run by running both on the same literals (direct calls of the parsing functions and one-literal programs lexed, parsed, built and executed on SimpleGarnishData and BasicGarnishData, read back through the public getters), and an independent Python oracle (spell -> evaluate -> compare) checks the implementation directly.",
   "design_ref": "DESIGN.md section 8 C14"
  },
- "level_note": "Trusted: Coq kernel; Flocq's four standard-library axioms (float theorems only; the integer, text and byte theorems are closed under the global context); extraction (ExtrOcamlBasic only); the Rust harness and the Python oracle. Partial: the lexer is not part of the model (C13) - that a spelling lexes as ONE literal token is checked on the implementation only; the spelling in the float round-trip theorem is the exact decimal expansion, not Rust's shortest `{}` form - that the shortest form evaluates back is checked on the implementation (Python float() as oracle); char::is_numeric on non-ASCII characters and symbol_value (SipHash) are oracles. Seven defects were found and fixed in /repo (known_findings.json, fixed).",
+ "level_note": "Trusted: Coq kernel; Flocq's four standard-library axioms (float theorems only; the integer, text and byte theorems are closed under the global context); extraction (ExtrOcamlBasic only); the Rust harness and the Python oracle. Both stages are proved: for every classification of non-ASCII characters the lexer model (Model/Lexer.v, tied to lex/lexer.rs by the C13 correspondence) turns each spelling into exactly ONE token at (0,0) whose text is the whole spelling (C14_lex_string, C14_lex_bytes_text, C14_lex_bytes, C14_lex_radix / C14_lex_int / C14_lex_decimal, C14_lex_float - floats are Number tokens, the lexer has no float type), and composed with the parser round trips lexing followed by parse_char_list / parse_byte_list / parse_simple_number is the identity on strings, byte vectors, non-negative i32 in every radix 2..36 and finite positive binary64 (C14_string_end_to_end, C14_char_list_end_to_end, C14_bytes_text_end_to_end, C14_bytes_end_to_end, C14_int_end_to_end, C14_decimal_end_to_end, C14_float_end_to_end); a literal followed by arbitrary input is the first token and leaves exactly the rest unread (C14_lex_*_then; proof: an explicit state invariant for 'inside a literal opened with n quotes' and its closing rule, Proofs/C14/LexSpelling*.v). Spellings the literal parser accepts but the lexer never delivers as one token are machine-checked witnesses, not claims: two quotes on each side, an empty value between three or more quotes, an escaped apostrophe in byte text (C14_lex_*_refuted) - every value still has a spelling that lexes. Partial: the spelling in the float round-trip theorem is the exact decimal expansion, not Rust's shortest `{}` form - that the shortest form evaluates back is checked on the implementation (Python float() as oracle); char::is_numeric on non-ASCII characters and symbol_value (SipHash) are oracles. Seven defects were found and fixed in /repo (known_findings.json, fixed).",
  "technique": "Coq proof (induction over digit strings / literal items; Flocq for decimal->binary64) over an executable model + differential correspondence with the Rust implementation"
 }
 I32_MAX = 2**31 - 1
